@@ -544,6 +544,27 @@ func (fc *FnCtx) autoLemmasExcept(st *State, except string) {
 			if !fc.lemmaTypesResolvable(lm, cs) {
 				continue // the lemma talks about a library this package does not use
 			}
+			fc.autoLemmaOne(st, lm, cs)
+		}
+	}
+}
+
+// autoLemmaOne emits one auto lemma; a lemma that cannot be expressed in this function's arithmetic
+// mode (e.g. reference-indexed ghost sets in pure bit-vector mode) is skipped.
+func (fc *FnCtx) autoLemmaOne(st *State, lm *Lemma, cs *ContractSet) {
+	savedPre, savedDefine := len(fc.pre), fc.noDefine
+	defer func() {
+		if r := recover(); r != nil {
+			if _, ok := r.(vcError); ok {
+				fc.pre = fc.pre[:savedPre]
+				fc.noDefine = savedDefine
+				return
+			}
+			panic(r)
+		}
+	}()
+	{
+		{
 			homePkg := fc.eng.pkgOfContractSet(cs)
 			if homePkg == nil {
 				homePkg = fc.pkg.Types
